@@ -9,6 +9,8 @@ import (
 	"golang.org/x/net/html"
 
 	"xselverif/internal/adoc"
+	"xselverif/internal/refeval"
+	"xselverif/internal/bridge"
 	"xselverif/internal/evid"
 	"xselverif/internal/rng"
 )
@@ -51,7 +53,7 @@ func genSoup(g *rng.R, sb *strings.Builder, depth, maxDepth int, budget *int) {
 				case 1:
 					sb.WriteString(" " + name + "=v" + fmt.Sprint(g.Intn(9)))
 				default:
-					sb.WriteString(" " + name + "=\"" + rng.Pick(g, []string{"", "a b", "http://www.w3.org/2000/svg", "&amp;", "x'y"}) + "\"")
+					sb.WriteString(" " + name + "=\"" + rng.Pick(g, []string{"", "a b", "http://www.w3.org/2000/svg", "&amp;", "x'y", "?a=1&amp;lt=2", "&amp;amp;", "&#38;#49;", "a&nbsp;b", "&amp;quot;"}) + "\"")
 				}
 			}
 			if g.P(8) {
@@ -65,13 +67,13 @@ func genSoup(g *rng.R, sb *strings.Builder, depth, maxDepth int, budget *int) {
 				sb.WriteString("</" + tag + ">")
 			}
 		case k < 10:
-			sb.WriteString(rng.Pick(g, []string{"text", " ", "a &amp; b", "&lt;", "é", "\n", "x<y", "&nbsp;", "]]>", "\x00z"}))
+			sb.WriteString(rng.Pick(g, []string{"text", " ", "a &amp; b", "&lt;", "é", "\n", "x<y", "&nbsp;", "]]>", "\x00z", "&amp;lt;", "&amp;#49;&amp;#50;", "&amp;amp;amp;", "&#38;gt;", "AT&T", "&amp;&lt;", "12", " 3.5 ", "&#x26;#x41;"}))
 		case k < 12:
 			sb.WriteString("<!--" + rng.Pick(g, []string{"c", "", " x ", "-", "a--b"}) + "-->")
 		case k == 12:
 			sb.WriteString("</" + rng.Pick(g, htmlTags) + ">") // stray end tag
 		default:
-			sb.WriteString(rng.Pick(g, []string{"<![CDATA[x]]>", "<?pi?>", "<!doctype html>", "</html>", "</body>", "<p>", "<table>", "<svg><![CDATA[y]]></svg>"}))
+			sb.WriteString(rng.Pick(g, []string{"<![CDATA[x]]>", "<?pi?>", "<!doctype html>", "</html>", "</body>", "<p>", "<table>", "<svg><![CDATA[y]]></svg>", "<style>a:after{content:\"&gt;&amp;lt;\"}</style>", "<script>if(a&amp;&amp;b&lt;c){}</script>", "<svg viewBox=\"0 0 1 1\"><clipPath id=c><foreignObject/></clipPath><linearGradient gradientUnits=x /></svg>", "<math definitionURL=u><mi>x</mi></math>", "<textarea>&amp;lt;</textarea>", "<title>&amp;amp;</title>"}))
 		}
 	}
 }
@@ -177,4 +179,34 @@ func c17Case(r *evid.Run, tier string, idx int, g *rng.R) {
 	if len(text) < 400 {
 		r.Sample("html", 3, map[string]any{"case": idx, "html": text, "tree": d.Dump()})
 	}
+}
+
+
+// newHTMLWorld builds a tag soup, takes golang.org/x/net/html's tree of it as the reference
+// document and realises it through xsel.ReadHtml (R-html). An error means that ReadHtml's tree
+// differs from the reference in structure, a name or a value.
+func newHTMLWorld(g *rng.R) (*world, string, error) {
+	var sb strings.Builder
+	sb.WriteString("<!DOCTYPE html>")
+	budget := g.Range(4, 40)
+	genSoup(g, &sb, 0, g.Range(1, 5), &budget)
+	src := sb.String()
+	dom, err := html.Parse(strings.NewReader(src))
+	if err != nil {
+		return nil, src, nil
+	}
+	d := adoc.NewDoc()
+	if err := domToDoc(dom, d, d.Root); err != nil {
+		return nil, src, nil
+	}
+	d.Finish()
+	root, err := safeReadHtml([]byte(src))
+	if err != nil {
+		return nil, src, fmt.Errorf("ReadHtml failed: %v", err)
+	}
+	m, err := bridge.Build(root, d)
+	if err != nil {
+		return nil, src, err
+	}
+	return &world{d: d, m: m, env: &refeval.Env{Doc: d, NS: canonNS}, opts: nsOpts(canonNS)}, src, nil
 }
